@@ -91,6 +91,23 @@ func (c *pickyCore) Write(zapcore.Entry, []zapcore.Field) error {
 func (c *pickyCore) Sync() error { return nil }
 
 // runProgram executes ops against a real zapio.Writer; it returns a violation message or "".
+// onlyCore narrows a core to the levels ok admits, the way zapcore.NewCore's LevelEnabler would.
+type onlyCore struct {
+	zapcore.Core
+	ok func(zapcore.Level) bool
+}
+
+func (c *onlyCore) Enabled(l zapcore.Level) bool { return c.ok(l) && c.Core.Enabled(l) }
+func (c *onlyCore) With(fs []zapcore.Field) zapcore.Core {
+	return &onlyCore{Core: c.Core.With(fs), ok: c.ok}
+}
+func (c *onlyCore) Check(e zapcore.Entry, ce *zapcore.CheckedEntry) *zapcore.CheckedEntry {
+	if c.Enabled(e.Level) {
+		return ce.AddCore(e, c)
+	}
+	return ce
+}
+
 func runProgram(ops []op, level zapcore.Level, toggles bool) string {
 	al := zap.NewAtomicLevelAt(zapcore.DebugLevel)
 	// the core enables every level (also custom ones below debug or above fatal) unless the
@@ -111,6 +128,15 @@ func runProgram(ops []op, level zapcore.Level, toggles bool) string {
 	sampled := len(ops)%5 == 2 && nbytes%8 == 3 && !toggles // (a sampler's counter table is half a megabyte)
 	if sampled {
 		logCore = zapcore.NewSamplerWithOptions(logCore, time.Hour, 2, 0)
+	}
+	if len(ops)%3 == 2 && nbytes%2 == 0 && !sampled {
+		// the documented "split by priority" arrangement with an entry hook on top: a tee of one branch
+		// for error and above and one for everything below, both feeding the recording core; each line
+		// belongs to exactly one branch (round 8)
+		logCore = zapcore.RegisterHooks(zapcore.NewTee(
+			&onlyCore{Core: logCore, ok: func(l zapcore.Level) bool { return l >= zapcore.ErrorLevel }},
+			&onlyCore{Core: logCore, ok: func(l zapcore.Level) bool { return l < zapcore.ErrorLevel }},
+		), func(zapcore.Entry) error { return nil })
 	}
 	w := &zapio.Writer{Log: zap.New(logCore, zap.ErrorOutput(zapcore.AddSync(io.Discard))), Level: level}
 	// in every second program the recorded messages are collected in batches, one at every Sync
